@@ -174,6 +174,11 @@ func genLedgerWith(b ledgerBias) func(r *prng, seed uint64, tier string) *Plan {
 			cfg.TruncateAt = 2*cfg.TruncateDiff + uint64(r.Intn(2))
 			longRun = true
 		}
+		if cfg.TruncateAt > 0 && r.Chance(0.4) {
+			// a short truncate-signal channel: admissions signal the truncation loop on every vertex, and the
+			// shipped capacity (50) is never reached by a run of this size
+			cfg.SignalBuf = uint64(1 + r.Intn(3))
+		}
 		if cfg.Nodes > 1 && r.Chance(0.3) {
 			cfg.CtxCancelOnReturn = true // request contexts as under grpc-go
 		}
